@@ -440,24 +440,34 @@ fn process_result(scenarios: &[Scenario], rep: &mut Report, levels: &mut [Vec<Jo
 
 /// Run a single schedule with tracing in a forked child and return its result.
 pub fn run_single(sc: &Scenario, oracle: &Oracle, choices: &[u32]) -> Option<ExecResult> {
-    // initialise this thread's hash-map keys before forking so that every child of this process
-    // iterates hash maps in the same order (two replays must give identical observations)
-    let _keys: std::collections::HashSet<u8> = std::collections::HashSet::new();
+    run_n(sc, oracle, choices, 1).pop().flatten()
+}
+
+/// Run the same schedule `n` times, every child forked from the same parent state (the children are
+/// all started before any result is read, so that the parent creates no hash map in between and every
+/// child iterates hash maps in the same order: replays must give identical observations).
+pub fn run_n(sc: &Scenario, oracle: &Oracle, choices: &[u32], n: usize) -> Vec<Option<ExecResult>> {
     let mut sc = sc.clone();
     sc.opts.trace = true;
     let scs = vec![sc];
-    let c = spawn_child(&scs, oracle, Job { sidx: 0, prefix: choices.to_vec(), expect_n: vec![], devs: 0, recheck_of: None }, 999_999);
-    let mut c = c;
-    unsafe {
-        let flags = libc::fcntl(std::os::unix::io::AsRawFd::as_raw_fd(&c.file), libc::F_GETFL);
-        libc::fcntl(std::os::unix::io::AsRawFd::as_raw_fd(&c.file), libc::F_SETFL, flags & !libc::O_NONBLOCK);
+    let mut children = Vec::with_capacity(n);
+    for i in 0..n {
+        children.push(spawn_child(&scs, oracle, Job { sidx: 0, prefix: choices.to_vec(), expect_n: vec![], devs: 0, recheck_of: None }, 999_990 + i as u64));
     }
-    let mut buf = Vec::new();
-    let _ = c.file.read_to_end(&mut buf);
-    let mut status = 0;
-    unsafe {
-        libc::waitpid(c.pid, &mut status, 0);
+    let mut out = Vec::with_capacity(n);
+    for mut c in children {
+        unsafe {
+            let flags = libc::fcntl(std::os::unix::io::AsRawFd::as_raw_fd(&c.file), libc::F_GETFL);
+            libc::fcntl(std::os::unix::io::AsRawFd::as_raw_fd(&c.file), libc::F_SETFL, flags & !libc::O_NONBLOCK);
+        }
+        let mut buf = Vec::new();
+        let _ = c.file.read_to_end(&mut buf);
+        let mut status = 0;
+        unsafe {
+            libc::waitpid(c.pid, &mut status, 0);
+        }
+        let _ = std::fs::remove_file(&c.cfg);
+        out.push(serde_json::from_slice(&buf).ok());
     }
-    let _ = std::fs::remove_file(&c.cfg);
-    serde_json::from_slice(&buf).ok()
+    out
 }
